@@ -9,6 +9,8 @@ import M3d.Lemmas.BitmapLift
 import M3d.Lemmas.McFan5
 import M3d.Lemmas.C01Search
 import M3d.Lemmas.C01Conj
+import M3d.Lemmas.C01ConjProbe
+import M3d.Lemmas.C01Polytope
 import Mathlib.Algebra.Order.Field.Rat
 import Mathlib.Tactic.NormNum
 import Mathlib.Tactic.FinCases
@@ -729,6 +731,215 @@ theorem mesh_rect2_is_closed (lo hi : K × K) (hx : lo.1 < hi.1) (hy : lo.2 < hi
   meshRect2_closed lo hi hx hy p
 
 end MeshRect
+
+/-! ## Conj members, round 5: the translation part of the transform list
+
+`conj_flip_iff_reversing` is about every affine map back `p ↦ L p + w`; the theorems below spell out what that means for
+`w` (seeded change C01-11 guarded the sign test of `MarchingCubesConj` by a handedness probe that applies the map to the
+unit POINTS `X(1), Y(1), Z(1)` and forgets to subtract the image of the origin).  Kinds `mcj` / `msj`, `soup3/mcj`,
+`soup2/msj` with the lists of `conjFar3 / conjFar2` (harness/cmd/c01/conj.go): mirror images about planes / points /
+diagonal planes that do not pass through the origin, glide reflections, offsets up to 8. -/
+section ConjTranslations
+open M3d.C01Search
+
+/-- **The translation part of a transform list is irrelevant to the orientation `MarchingCubesConj` must restore.**  Two
+invertible affine maps back with the same linear part `L` — the mirror image about `x = 0` and the mirror image about
+`x = c`, say — make `conjMesh` return the same triangles in the same vertex order (same reversal decision), merely
+translated; for every closed soup of positive volume, every pair of reference points. -/
+theorem conj_translation_is_irrelevant {K : Type} [Field K] [LinearOrder K] [IsStrictOrderedRing K]
+    (g : Aff3 K) (hd : g.det ≠ 0) (w ref ref' : K × K × K) (ts : List ((K × K × K) × (K × K × K) × (K × K × K)))
+    (hclosed : ∀ p q, pecnt ts (p, q) = pecnt ts (q, p)) (hvol : 0 < vol6 ts) :
+    conjMesh (g.withW w).apply ref' ts =
+      (conjMesh g.apply ref ts).map (map3 (shift3 (w.1 - g.w1, w.2.1 - g.w2, w.2.2 - g.w3))) :=
+  conjMesh_translation_irrelevant g hd w ref ref' ts hclosed hvol
+
+/-- **A member that skips the reversal on an orientation-reversing list returns the surface inside out**: for `det L < 0`
+the bare mapped mesh of a closed soup of positive volume has NEGATIVE signed volume from wherever it is measured, and a
+direction that left the transformed solid through a triangle meets the mapped triangle against its normal.  So whatever
+precedes the sign test (`mcSignedVolume(mesh) < 0`) must not switch it off when `det L < 0`. -/
+theorem conj_unreversed_is_inside_out {K : Type} [Field K] [LinearOrder K] [IsStrictOrderedRing K]
+    (g : Aff3 K) (hd : g.det < 0) (ref : K × K × K) (ts : List ((K × K × K) × (K × K × K) × (K × K × K)))
+    (hclosed : ∀ p q, pecnt ts (p, q) = pecnt ts (q, p)) (hvol : 0 < vol6 ts) :
+    vol6At ref (ts.map (map3 g.apply)) < 0 ∧
+      ∀ t v, 0 < ndot t v → ndot (map3 g.apply t) (g.lin v) < 0 :=
+  ⟨map_back_unreversed_inside_out g hd ref ts hclosed hvol,
+   fun t v h => map_back_unreversed_normal_inward g hd t v h⟩
+
+/-- **A frame of POINTS does not measure orientation.**  The triple product of the images of the unit directions
+(`g(eᵢ) − g(0)`) is `det L`; the triple product of the images of the unit points is `det (L + w 1ᵀ)` — equal to `det L`
+for linear maps, but for the mirror image about the plane `x = c` (`Translate(−c), VecScale(−1,1,1), Translate(c)`)
+it is `2c − 1` while `det L = −1`: non-negative for every `c ≥ 1/2`. -/
+theorem point_frame_probe_is_not_the_determinant {K : Type} [Field K] [LinearOrder K] [IsStrictOrderedRing K] :
+    (∀ g : Aff3 K, g.dirFrame = g.det) ∧
+    (∀ g : Aff3 K, g.w1 = 0 → g.w2 = 0 → g.w3 = 0 → g.pointFrame = g.det) ∧
+    (∀ c : K, (Aff3.mirrorX c).det = -1 ∧ (Aff3.mirrorX c).pointFrame = 2 * c - 1) ∧
+    (∀ c : K, 1 / 2 ≤ c → (Aff3.mirrorX c).det < 0 ∧ 0 ≤ (Aff3.mirrorX c).pointFrame) := by
+  refine ⟨Aff3.dirFrame_eq_det, Aff3.pointFrame_linear, fun c => ⟨Aff3.mirrorX_det c, Aff3.mirrorX_pointFrame c⟩,
+    fun c hc => ?_⟩
+  rw [Aff3.mirrorX_det, Aff3.mirrorX_pointFrame]
+  constructor
+  · norm_num
+  · linarith
+
+/-- 2-D twins (`MarchingSquaresConj`). -/
+theorem conj2_unreversed_is_inside_out {K : Type} [Field K] [LinearOrder K] [IsStrictOrderedRing K]
+    (g : Aff2 K) (hd : g.det < 0) (ref : K × K) (ss : List ((K × K) × (K × K)))
+    (hclosed : ∀ v, pcnt false ss v = pcnt true ss v) (hvol : shoe2 ss < 0) :
+    0 < shoe2At ref (ss.map (map2 g.apply)) :=
+  map_back_unreversed_inside_out2 g hd ref ss hclosed hvol
+
+theorem point_frame_probe_is_not_the_determinant2 {K : Type} [Field K] [LinearOrder K] [IsStrictOrderedRing K] :
+    (∀ g : Aff2 K, g.dirFrame = g.det) ∧
+    (∀ c : K, (Aff2.mirrorX c).det = -1 ∧ (Aff2.mirrorX c).pointFrame = 2 * c - 1) :=
+  ⟨Aff2.dirFrame_eq_det, fun c => ⟨Aff2.mirrorX_det c, Aff2.mirrorX_pointFrame c⟩⟩
+
+/-- Non-vacuity: the tetrahedron `0, e₁, e₂, e₃` over ℚ mirrored about the plane `x = 2` (`det = −1`, point frame
+`= 3 > 0`): `conjMesh` returns the four triangles mapped AND reversed with volume `1`; the bare map back has volume
+`−1` (what seeded C01-11 returned: its probe said "orientation-preserving" and the sign test never ran). -/
+example :
+    let pts : Fin 4 → ℚ × ℚ × ℚ := fun i =>
+      if i = 0 then (0, 0, 0) else if i = 1 then (1, 0, 0) else if i = 2 then (0, 1, 0) else (0, 0, 1)
+    let ids : List (Fin 4 × Fin 4 × Fin 4) := [(0, 2, 1), (0, 1, 3), (1, 2, 3), (2, 0, 3)]
+    let ts := ids.map (map3 pts)
+    let g : Aff3 ℚ := Aff3.mirrorX 2
+    g.pointFrame = 3 ∧ g.det = -1 ∧
+      conjMesh g.apply (g.apply (pts 3)) ts = ts.map (fun t => flip3 (map3 g.apply t)) ∧
+      vol6At (pts 0) (ts.map (map3 g.apply)) = -1 ∧ vol6At (pts 0) (conjMesh g.apply (g.apply (pts 3)) ts) = 1 := by
+  intro pts ids ts g
+  have hdet : g.det = -1 := Aff3.mirrorX_det 2
+  have hd : g.det ≠ 0 := by rw [hdet]; norm_num
+  have hneg : g.det < 0 := by rw [hdet]; norm_num
+  have e0 : pts 0 = (0, 0, 0) := rfl
+  have e1 : pts 1 = (1, 0, 0) := rfl
+  have e2 : pts 2 = (0, 1, 0) := rfl
+  have e3 : pts 3 = (0, 0, 1) := rfl
+  have hinj : Function.Injective pts := by
+    intro i j h
+    fin_cases i <;> fin_cases j <;> simp [pts] at h ⊢
+  have hids : ∀ U V, pecnt ids (U, V) = pecnt ids (V, U) ∧ pecnt ids (U, V) ≤ 1 := by decide
+  have hc : ∀ p q, pecnt ts (p, q) = pecnt ts (q, p) := fun p q => (balanced_map pts hinj ids hids p q).1
+  have hts : ts = [((0, 0, 0), (0, 1, 0), (1, 0, 0)), ((0, 0, 0), (1, 0, 0), (0, 0, 1)),
+      ((1, 0, 0), (0, 1, 0), (0, 0, 1)), ((0, 1, 0), (0, 0, 0), (0, 0, 1))] := by
+    simp only [ts, ids, List.map_cons, List.map_nil, map3, e0, e1, e2, e3]
+  have hv : 0 < vol6 ts := by rw [hts]; norm_num [vol6, lsum, det3]
+  have hmap : ts.map (conjTri g) = ts.map (fun t => flip3 (map3 g.apply t)) := by
+    apply List.map_congr_left
+    intro t _
+    simp only [conjTri, hneg, if_true]
+  refine ⟨?_, hdet, ?_, ?_, ?_⟩
+  · rw [show g = Aff3.mirrorX 2 from rfl, Aff3.mirrorX_pointFrame]; norm_num
+  · rw [(conj_flip_iff_reversing g hd _ (pts 0) ts hc hv).1, hmap]
+  · rw [hts, e0]; norm_num [vol6At, det3, sub3, map3, Aff3.mirrorX_apply, g]
+  · rw [(conj_flip_iff_reversing g hd _ (pts 0) ts hc hv).1, hmap, hts, e0]
+    norm_num [vol6At, det3, sub3, map3, flip3, Aff3.mirrorX_apply, g]
+
+end ConjTranslations
+
+/-! ## Polytope meshes: constraints whose normals are not unit length
+
+`ConvexPolytope.Mesh()` builds every face from the plane intersections `ConvexPolytope.vertex` accepts (model
+`M3d.Bd.vertex3 / vertex2 / meshVerts3 / meshVerts2`, `Model/BoundedPoly.lean` — C03's, compared with the real vertex
+enumeration bit for bit at `Float` by C03's kind `pvert`).  A `LinearConstraint` may have a normal of any length
+(`RectUnnormalized` in the package's tests: `1e90`, `1e50`): the same polytope written with every inequality multiplied
+by its own positive factor must give the same mesh — C01's "closed oriented manifolds for all valid parameters" includes
+these systems (kinds `soup3/polytope_unnormalized`, `soup2/polytope2d_unnormalized`, harness/cmd/c01/polytope.go:
+geometry scales `10⁻⁷ … 10³`, factors `2⁻⁶⁰ … 2⁶⁰`, decimal factors, raw cross products of edge vectors). -/
+section PolytopeScale
+open M3d.Bd
+
+/-- **The vertices `ConvexPolytope.Mesh()` builds its faces from do not depend on how long the normals are written.**
+For every list of half-spaces `n·p ≤ m`, each multiplied by its own positive factor `s` (`Normal = s·n`, `Max = s·m`),
+the 3-D and the 2-D vertex enumeration return exactly the vertices of the unscaled system, in the same order (for every
+square-root function with `sqrt x ≥ 0`, `sqrt x · sqrt x = x`, every conditioning tolerance).  Every step is invariant:
+the conditioning test `|det| < |n₁||n₂||n₃|·1e-8` is relative to the normals' lengths, the solved point does not depend
+on the factors, `spatialEpsilon` is built from the offsets `|Max|/|Normal|`, and the feasibility test compares
+`Normal·v − Max` with `epsilon·|Normal|`. -/
+theorem polytope_mesh_vertices_scale_invariant {K : Type} [Field K] [LinearOrder K] [IsStrictOrderedRing K]
+    (sq : K → K) (hsq : SqrtOK sq) (tol : K) (l : List (SCon K)) (hs : ∀ c ∈ l, 0 < c.s) :
+    meshVerts3 sq tol (scaledCs l) = meshVerts3 sq tol (unscaledCs l) ∧
+    meshVerts2 sq tol (scaledCs l) = meshVerts2 sq tol (unscaledCs l) :=
+  ⟨meshVerts3_scaled sq hsq tol l hs, meshVerts2_scaled sq hsq tol l hs⟩
+
+/-- **The feasibility tolerance of `vertex` is a DISTANCE.**  With non-zero normals the acceptance loop accepts a
+candidate `v` iff the signed distance `(n·v − m)/|n|` from `v` to every other half-space is at most `epsilon` — a
+statement about the half-spaces, not about the way their inequalities are written. -/
+theorem polytope_vertex_accepted_iff_within_distance {K : Type} [Field K] [LinearOrder K] [IsStrictOrderedRing K]
+    (sq : K → K) (epsilon : K) (others : List (Pt K × K)) (v : Pt K) (hn : ∀ l ∈ others, 0 < pnorm sq l.1) :
+    vertexOk sq epsilon others v = true ↔ ∀ l ∈ others, (pdot l.1 v - l.2) / pnorm sq l.1 ≤ epsilon :=
+  vertexOk_iff_dist sq epsilon others v hn
+
+/-- **Every vertex `Mesh()` uses is the intersection point of its three (two) planes and lies within `epsilon` of every
+other half-space** — for non-zero normals and a positive conditioning tolerance.  (The converse direction — every vertex
+of a bounded polytope is enumerated unless the conditioning test rejects it — is `M3d.Bd.basic3_mem / basic2_mem`, used by
+C03.) -/
+theorem polytope_accepted_vertex_is_sound {K : Type} [Field K] [LinearOrder K] [IsStrictOrderedRing K]
+    (sq : K → K) (tol epsilon : K) (htol : 0 < tol) (l1 l2 l3 : Pt K × K) (others : List (Pt K × K))
+    (h1 : 0 < pnorm sq l1.1) (h2 : 0 < pnorm sq l2.1) (h3 : 0 < pnorm sq l3.1)
+    (ho : ∀ l ∈ others, 0 < pnorm sq l.1) :
+    (∀ v, vertex3 sq tol epsilon l1 l2 l3 others = some v →
+      pdot l1.1 v = l1.2 ∧ pdot l2.1 v = l2.2 ∧ pdot l3.1 v = l3.2 ∧
+        ∀ l ∈ others, (pdot l.1 v - l.2) / pnorm sq l.1 ≤ epsilon) ∧
+    (l1.1.z = 0 → l2.1.z = 0 → ∀ v, vertex2 sq tol epsilon l1 l2 others = some v →
+      pdot l1.1 v = l1.2 ∧ pdot l2.1 v = l2.2 ∧ ∀ l ∈ others, (pdot l.1 v - l.2) / pnorm sq l.1 ≤ epsilon) :=
+  ⟨fun v hv => vertex3_sound sq tol epsilon htol l1 l2 l3 others h1 h2 h3 ho v hv,
+   fun hz1 hz2 v hv => vertex2_sound sq tol epsilon htol l1 l2 others h1 h2 hz1 hz2 ho v hv⟩
+
+/-- **A tolerance that is not multiplied by `|Normal|` is not a property of the polytope** (what seeded change C01-10
+writes: `l.Normal.Dot(solution) > l.Max + epsilon`).  On a system whose inequalities are all multiplied by `s > 0` that
+loop is the same loop on the unscaled system with tolerance `epsilon / s`; hence for every candidate point and every
+constraint list there is a factor below which it accepts the point — vertices far outside the polytope included —
+while the real loop (`M3d.Bd.vertexOk_scaled`) does not see the factor at all. -/
+theorem polytope_absolute_tolerance_scales_with_the_factor {K : Type} [Field K] [LinearOrder K] [IsStrictOrderedRing K]
+    (epsilon : K) (others : List (Pt K × K)) (v : Pt K) :
+    (∀ s, 0 < s → vertexOkAbs epsilon (others.map fun l => (pscale l.1 s, l.2 * s)) v =
+      vertexOkAbs (epsilon / s) others v) ∧
+    (0 < epsilon → ∃ s0, 0 < s0 ∧ ∀ s, 0 < s → s ≤ s0 →
+      vertexOkAbs epsilon (others.map fun l => (pscale l.1 s, l.2 * s)) v = true) :=
+  ⟨fun s hs => vertexOkAbs_scaled epsilon s hs others v,
+   fun heps => vertexOkAbs_accepts_everything epsilon heps others v⟩
+
+/-- **A half-space listed again does not change the polytope.**  If every extra constraint is a positive multiple of a
+constraint already present — what `append(a, b...)` gives for two polytopes with a common face plane — the half-space
+test `ConvexPolytope.Contains` is unchanged for every point: the redundant system is a valid way of writing the same
+solid, and C01 demands the same closed manifold of its mesh.  (Before /repo fa653dc `Mesh()` created the face of such a
+half-space once per listing, every triangle of it twice; now `repeatsConstraint` skips the later listings.  Kinds
+`soup3/polytope_unnormalized`, `soup2/polytope2d_unnormalized`, families `+repeat`, `+second-box`, `+far`.) -/
+theorem polytope_repeated_constraint_same_solid {K : Type} [Field K] [LinearOrder K] [IsStrictOrderedRing K]
+    (cs extra : List (Pt K × K))
+    (h : ∀ e ∈ extra, ∃ l ∈ cs, ∃ s, 0 < s ∧ e = (pscale l.1 s, l.2 * s)) (p : Pt K) :
+    polyContains (cs ++ extra) p = polyContains cs p :=
+  polyContains_append_repeats cs extra h p
+
+/-- Non-vacuity: the unit square with `x ≤ 1` listed again as `3x ≤ 3`. -/
+example (p : Pt ℚ) :
+    polyContains ([(mk3 1 0 0, (1 : ℚ)), (mk3 (-1) 0 0, 0), (mk3 0 1 0, 1), (mk3 0 (-1) 0, 0)] ++ [(mk3 3 0 0, 3)]) p =
+      polyContains [(mk3 1 0 0, (1 : ℚ)), (mk3 (-1) 0 0, 0), (mk3 0 1 0, 1), (mk3 0 (-1) 0, 0)] p := by
+  apply polytope_repeated_constraint_same_solid
+  intro e he
+  simp only [List.mem_cons, List.not_mem_nil, or_false] at he
+  subst he
+  exact ⟨(mk3 1 0 0, 1), List.mem_cons_self .., 3, by norm_num, by simp [pscale, mk3, Pt.get]⟩
+
+/-- Non-vacuity (over ℚ, with the exact square root of the squares that occur): the unit square with the corner `(1,1)`
+cut off by `x + y ≤ 3/2`, every inequality multiplied by `2⁻³⁴`, tolerance `10⁻⁸`: the model of `Mesh()` enumerates the
+five corners of the pentagon, as for unit factors — and the absolute-tolerance loop accepts the cut-off corner `(1, 1)`
+(it violates `x + y ≤ 3/2` by `1/2`, far more than `10⁻⁸`) against the scaled constraint, while the real loop rejects it. -/
+example :
+    let sys : List (SCon ℚ) := [⟨1 / 17179869184, mk3 (-1) 0 0, 0⟩, ⟨1 / 17179869184, mk3 1 0 0, 1⟩,
+      ⟨1 / 17179869184, mk3 0 (-1) 0, 0⟩, ⟨1 / 17179869184, mk3 0 1 0, 1⟩, ⟨1 / 17179869184, mk3 1 1 0, 3 / 2⟩]
+    -- |n| for the axis normals (exact) and an upper bound 3/2·2⁻³⁴ of √2·2⁻³⁴ for the cut (the rejections below hold for
+    -- every value of the norm between 0 and that)
+    let sq : ℚ → ℚ := fun x => if x = 1 / 295147905179352825856 then 1 / 17179869184 else
+      if x = 2 / 295147905179352825856 then 3 / 2 / 17179869184 else 0
+    let cut : List (SCon ℚ) := [⟨1 / 17179869184, mk3 1 1 0, 3 / 2⟩]
+    ((meshVerts2 (α := ℚ) sq (1 / 100000000) (scaledCs sys)).map (fun v => (v.x, v.y)) =
+        [(0, 0), (0, 1), (1, 0), (1, 1 / 2), (1 / 2, 1)]) ∧
+    vertexOkAbs (K := ℚ) (1 / 100000000) (scaledCs cut) (mk3 1 1 0) = true ∧
+    vertexOkAbs (K := ℚ) (1 / 100000000) (unscaledCs cut) (mk3 1 1 0) = false ∧
+    vertexOk (α := ℚ) sq (1 / 100000000) (scaledCs cut) (mk3 1 1 0) = false := by
+  refine ⟨by decide +kernel, by decide +kernel, by decide +kernel, by decide +kernel⟩
+
+end PolytopeScale
 
 /-! ## The deciders the driver runs on real output meshes
 
